@@ -1,5 +1,7 @@
 """Human-written texts for MANIFEST.json."""
 ENGINES = [
+    {"name": "S2-triesim", "path": "/verif/sim/triesim", "serves_properties": ["C18"],
+     "kind_free_text": "seeded trie histories with restart / crash-at-write-prefix / proof-corruption faults against a map model with per-root snapshots"},
     {"name": "S1-dbsim", "path": "/verif/sim/dbsim", "serves_properties": ["C17"],
      "kind_free_text": "seeded lock-step simulation of the three storage engines and the rawdb wrappers against a map+batch reference model, with reopen / held-iterator / cross-engine replay faults (rapid tape = replay file)"},
 ]
@@ -15,5 +17,13 @@ META = {
                  "and batches replayed into another engine, are applied in lock-step to memorydb, leveldb, pebble and the rawdb table/nofreezedb wrappers and compared op-by-op with a map+ordered-batch model. "
                  "Sampling, not proof; right level because the property quantifies over all op histories and backends and the interesting failures (pending view, prefix upper bounds, snapshot iterators) need specific short sequences that a seeded search with shrinking finds and minimises."),
         "note": "Trusted: the reference model (60 lines), goleveldb/pebble themselves beyond what the histories exercise; power-loss durability is not part of this check (C11).",
+    },
+    "C18": {
+        "engine": "S2-triesim", "design_ref": "DESIGN.md section 4 C18",
+        "technique": "deterministic simulation: seeded trie operation histories with restart, crash-prefix and proof-corruption faults vs. reference model (rapid tape, shrinking, replay)",
+        "text": ("Exploration: seeded histories of trie operations interleaved with commits, cache flushes, restarts over the same disk, crashes at every drawn prefix of a disk commit's write log, and corrupted proofs; "
+                 "after every op the real trie is compared with a map model (canonical root by three construction orders, reads, reopened roots, proofs, StackTrie vs full trie). "
+                 "Sampling with shrinking; the order/history independence and crash clauses need specific short histories, which is what a seeded search finds."),
+        "note": "Trusted: the map model and snapshot bookkeeping; keccak/rlp. Secure-trie key collisions cannot be steered.",
     },
 }
